@@ -43,6 +43,16 @@ func safePubKey(d did.DID) (pk crypto.PubKey, err error, panicked any) {
 	return
 }
 
+func safeToPubKey(s string) (pk crypto.PubKey, err error, panicked any) {
+	defer func() {
+		if r := recover(); r != nil {
+			panicked = r
+		}
+	}()
+	pk, err = did.ToPubKey(s)
+	return
+}
+
 type c16KeyCase struct {
 	Alg string `json:"alg"`
 	Key int    `json:"key"` // fixture index, or -1 for a freshly generated key
@@ -151,6 +161,15 @@ func altEncodings(k *fixtures.Key) []altEnc {
 			pad := append(append(append([]byte{}, canon[:i]...), 0x02, 0x04, 0x00, 0x01, 0x00, 0x01), canon[i+5:]...)
 			pad = fixSeqLen(pad, +1)
 			res = append(res, altEnc{"der-padded-integer", code, pad})
+		}
+		// an extra element INSIDE the RSAPublicKey SEQUENCE (length adjusted)
+		if len(canon) > 4 && canon[0] == 0x30 && canon[1] == 0x82 {
+			in := append(append([]byte{}, canon...), 0x02, 0x01, 0x00)
+			in = fixSeqLen(in, +3)
+			res = append(res, altEnc{"der-extra-element-inside-sequence", code, in})
+			in2 := append(append([]byte{}, canon...), 0x05, 0x00)
+			in2 = fixSeqLen(in2, +2)
+			res = append(res, altEnc{"der-extra-null-inside-sequence", code, in2})
 		}
 		for _, e := range []int64{1, 2, 1<<32 + 1} {
 			b, err := asn1.Marshal(struct {
@@ -300,6 +319,7 @@ func c16RoundtripSub() *engine.Sub {
 func c16AltSub() *engine.Sub {
 	return &engine.Sub{
 		Name: "alternative-encodings",
+		Repeat: true,
 		Rule: "for every fixture key, every alternative encoding of its key material under its multicodec (uncompressed / hybrid / other-parity points, x>=p, off-curve x, infinity, truncated/extended/empty/constant bodies, RSA DER variants, PKIX, odd exponents, non-minimal multicodec varint): Parse + PubKey never panic, and if both succeed the identifier is the canonical one of the extracted key (FromPubKey(pk).String() == s); non-trivial = Parse accepts",
 		Bound: func(string) string { return "16 keys x 8..14 encodings" },
 		Gen: func(tier string, emit func(any) bool) {
@@ -333,6 +353,9 @@ func c16CheckString(ctx *engine.Ctx, rc any, s string, tag string) {
 	d, err := did.Parse(s)
 	if err != nil {
 		ctx.Outcome("parse-rejects")
+		if pk, err2, pan := safeToPubKey(s); err2 == nil || pan != nil {
+			ctx.Failf(rc, "topubkey-accepts-what-parse-rejects/"+tag, "Parse rejects %q (%v) but ToPubKey returns %v (panic %v)", s, err, pk != nil, pan)
+		}
 		return
 	}
 	ctx.Nontrivial(1)
@@ -348,7 +371,14 @@ func c16CheckString(ctx *engine.Ctx, rc any, s string, tag string) {
 	}
 	if err != nil {
 		ctx.Outcome("pubkey-rejects")
+		if _, err2, pan2 := safeToPubKey(s); err2 == nil || pan2 != nil {
+			ctx.Failf(rc, "topubkey-accepts-what-pubkey-rejects/"+tag, "PubKey() of %s fails (%v) but ToPubKey succeeds", s, err)
+		}
 		return
+	}
+	// did.ToPubKey(s) is documented as Parse + PubKey: it must agree with them
+	if pk2, err2 := did.ToPubKey(s); err2 != nil || !pk2.Equals(pk) {
+		ctx.Failf(rc, "topubkey-disagrees-with-parse/"+tag, "ToPubKey(%s) fails or returns another key than Parse+PubKey: %v", s, err2)
 	}
 	back, err := did.FromPubKey(pk)
 	if err != nil {
@@ -376,6 +406,7 @@ func c16StringsSub() *engine.Sub {
 	supported := map[uint64]bool{0xed: true, 0xe7: true, 0x1200: true, 0x1201: true, 0x1202: true, 0x1205: true}
 	return &engine.Sub{
 		Name: "parser-inputs",
+		Repeat: true,
 		Rule: "strings offered to did.Parse: every base58 string up to the length bound after 'did:key:z'; every 1- and 2-byte multicodec varint (16512) in front of an Ed25519, a P-256 and an empty body; every ASCII character as multibase prefix in front of a valid body; prefix mutations of 'did:key:'. Unsupported codes, non-base58btc multibases and wrong prefixes must be rejected; whatever parses must print back identically and PubKey must return a key or an error without panicking, canonically; non-trivial = parser accepts",
 		Bound: func(t string) string { return fmt.Sprintf("base58 strings of length <=%d; 16512 codes x 3 bodies; 128 multibase prefixes; 40 prefix mutations", tierN(t, 3, 4)) },
 		Gen: func(tier string, emit func(any) bool) {
